@@ -3,7 +3,8 @@ package main
 // Suite c14 — storage failures and crashes fail closed.
 // For every flow of DESIGN.md Appendix A: the request is served by the REAL provider through the
 // fault-injecting storage decorator with an error (or a not-found on reads) injected at every
-// storage-call position, singly (quick) and in pairs (thorough), and is aborted before every
+// storage-call position, singly and in PAIRS (a second fault at every later position the singly-faulted run
+// reaches and at two positions beyond its last call), and is aborted before every
 // position (crash), after which a FRESH provider instance over the same stores is asked again for
 // every credential.  Recorded per run: the answer, the decorator's call log, the store afterwards
 // and the answers after the restart.  Corr/C14.v runs the model on the same pre-history and plan
@@ -952,7 +953,7 @@ func init() {
 		c14WriteFiles(ctx, cases, dcr)
 		ctx.Meta.Cases = len(cases) + len(dcr)
 		ctx.Meta.Distinct = len(distinct)
-		ctx.Meta.Rule = "every flow of DESIGN Appendix A (token x authorization_code, replayed code, refresh_token, expired refresh token, client_credentials, CIBA approve/deny/pending; introspect; revoke; userinfo; par; authorize plain / implicit / hybrid / in progress / failure / PAR / refused PAR; callback code / implicit / in progress / failure; bc-authorize; NotifyCIBASuccess push/ping/poll; NotifyCIBAFailure; DCR create/update/read/delete) x static and dynamic clients x every storage-call position x {error, not-found on reads} singly, x every crash point with a restarted provider, thorough: x all pairs and fault-then-crash; distinct = distinct (flow, plan, crash point, call log, answer class) among the faulted runs"
+		ctx.Meta.Rule = "every flow of DESIGN Appendix A (token x authorization_code, replayed code, refresh_token, expired refresh token, client_credentials, CIBA approve/deny/pending; introspect; revoke; userinfo; par; authorize plain / implicit / hybrid / in progress / failure / PAR / refused PAR; callback code / implicit / in progress / failure; bc-authorize; NotifyCIBASuccess push/ping/poll; NotifyCIBAFailure; DCR create/update/read/delete) x static and dynamic clients x every storage-call position x {error, not-found on reads} singly and in pairs (second fault at every later position of the singly-faulted run and two positions beyond its last call; error x error, error x not-found, not-found x error; pairs whose second position is not reached are not kept), x every crash point with a restarted provider, thorough (quick: one scenario in six): fault-then-crash; distinct = distinct (flow, plan, crash point, call log, answer class) among the faulted runs"
 		if len(cases) > 0 {
 			s := cases[len(cases)/3]
 			ctx.Meta.Samples = append(ctx.Meta.Samples, map[string]any{"note": s.Note, "faulted_op": s.Op.coq(), "plan": c14Plan(s.Plan), "crash": s.Crash, "log": c14Log(s.Log)})
